@@ -1,3 +1,4 @@
+import Props.C05Formulas
 import Props.C05Calls
 import Proofs.Core
 import Proofs.SpecLemmas
